@@ -463,7 +463,7 @@ def run_fit(job):
         "fpos": job["fpos"],
         "fkind": job["fkind"] if job["fpos"] else "none",
     }
-    out = {"id": job["id"], "sc": sc, "lamv": int(round(job["lam"] * 1000)), "seed": job["seed"], "n": job["n"], "outcome": "ok", "maxdiff": -1, "shape_same": False, "coef_maxdiff_ppm": -1}
+    out = {"id": job["id"], "sc": sc, "lamv": int(round(job["lam"] * 1000)), "seed": job["seed"], "n": job["n"], "outcome": "ok", "maxdiff": -1, "shape_same": False}
     try:
         if job["fpos"] == 0:
             res = _fit_run(job, 0, "none")  # a second fault-free run: the comparison baseline is itself repeatable
